@@ -26,7 +26,9 @@ impl StructType {
 
 impl Hash for StructType {
     fn hash<H: std::hash::Hasher>(&self, state: &mut H) {
-        self.0.keys().collect::<Box<[&Arc<str>]>>().hash(state)
+        let mut keys = self.0.keys().collect::<Box<[&Arc<str>]>>();
+        keys.sort_unstable();
+        keys.hash(state)
     }
 }
 
